@@ -5,12 +5,17 @@
  * cases: [0, nscopes)               closure scopes (every op in every reachable state)
  *        [nscopes, nscopes+nbig)    large heaps: grow to > 2^17 elements and drain, O(1) model checks
  *                                   per call, full walker around every power of two (mode "" only)
- *        [nscopes+nbig, ...)        seeded random histories with fill/drain phases
+ *        [.., +nswapuse)            swap-then-use histories: every pair of every configuration set in every state class
+ *        [.., ...)                  seeded random histories with fill/drain phases
  *
  * Heap objects of one scope are configured differently (order, comparator
  * function, priv, embedded node member): swap must exchange contents AND
  * configuration, so the configuration belongs to the model a heap object
- * currently carries.
+ * currently carries.  The attributes vary independently (configuration sets:
+ * pairs of heaps that differ in the function only, in priv only - a max-heap
+ * and a min-heap sharing one priv-directed comparator -, in the offset only);
+ * the comparator oracle demands the function and the priv of the heap the call
+ * was made on, wherever that configuration has travelled through swaps.
  *
  * Oracle after every call: reference multiset of held element addresses per
  * heap (get/pop NULL iff empty, returned address is a held element of maximal
@@ -46,17 +51,38 @@ struct elem {
 };
 #define PADV 0x5e5e5e5e5e5e5e5eull
 
-/* configuration of the heap that model m describes (initially heap object m) */
-struct hconf { int dir; int nodesel; };
-static const struct hconf conf[MAXH] = {
-    { +1, 0 },          /* greatest key on top, priv A, linked through .node */
-    { -1, 1 },          /* REVERSED order (smallest key on top), priv B, linked through .node2 */
-    { -1, 0 },          /* reversed, priv C, linked through .node */
+/* configuration of the heap that model m describes (initially heap object m).  The three attributes a heap is
+ * configured with - comparison function, priv pointer, node member offset - vary INDEPENDENTLY: a scope picks one
+ * configuration set, and the sets contain pairs of heaps that differ in exactly one attribute (and one set in which
+ * everything differs).  cmp_sel takes its direction from the object priv points to, so a max-heap and a min-heap can
+ * share the function and the offset and differ in nothing but priv. */
+enum { F_FWD, F_REV, F_SEL };
+struct privobj { uint64_t g0; int dir; uint64_t g1; };
+#define NPV 4
+static struct privobj privtab[NPV] = { { PADV, +1, PADV }, { PADV, -1, PADV }, { PADV, -1, PADV }, { PADV, +1, PADV } };
+struct hconf { int dir; int nodesel; int fn; int pv; };     /* pv: index into privtab, -1 = NULL priv */
+#define NSETS 5
+static const struct hconf confsets[NSETS][MAXH] = {
+    /* 0: everything differs */
+    { { +1, 0, F_FWD, 0 },      /* greatest key on top, priv 0, linked through .node */
+      { -1, 1, F_REV, 1 },      /* REVERSED order (smallest key on top), priv 1, linked through .node2 */
+      { -1, 0, F_REV, 2 } },    /* reversed, priv 2, linked through .node */
+    /* 1: same function, same offset, priv only: max-heap / min-heap / max-heap through another priv object */
+    { { +1, 1, F_SEL, 0 }, { -1, 1, F_SEL, 1 }, { +1, 1, F_SEL, 3 } },
+    /* 2: same priv, same offset, function only (the third behaves like the first through another function) */
+    { { +1, 0, F_FWD, 0 }, { -1, 0, F_REV, 0 }, { +1, 0, F_SEL, 0 } },
+    /* 3: 0/1 differ in the offset only, 1/2 in the function only */
+    { { -1, 0, F_SEL, 1 }, { -1, 1, F_SEL, 1 }, { +1, 1, F_FWD, 1 } },
+    /* 4: 0/1 differ in priv only, one of them NULL; 0/2 in the function only, both with NULL priv */
+    { { +1, 1, F_FWD, -1 }, { +1, 1, F_FWD, 0 }, { -1, 1, F_REV, -1 } },
 };
-static char privs[MAXH];
+static const struct hconf *conf = confsets[0];
+#define PRIV_OF(m) (conf[m].pv < 0 ? NULL : (void *)&privtab[conf[m].pv])
 #define OFF_OF(m) (conf[m].nodesel ? offsetof(struct elem, node2) : offsetof(struct elem, node))
+/* which attributes two configurations differ in: bit 0 function, bit 1 priv, bit 2 offset */
+#define DIFF_OF(m1, m2) ((conf[m1].fn != conf[m2].fn) | (conf[m1].pv != conf[m2].pv) << 1 | (conf[m1].nodesel != conf[m2].nodesel) << 2)
 
-struct cfg { int nh, nk, np, maxlen, cmpscale, light; };
+struct cfg { int nh, nk, np, maxlen, cmpscale, light, cset; };
 static struct cfg scopetab[40];
 static const struct cfg *C;
 
@@ -69,6 +95,9 @@ static int cnt[MAXH][MAXE];             /* model: held elements per priority */
 static int best[MAXH];                  /* model: top priority in the heap's own order, -1 = empty */
 static struct elem *posmap[MAXH][MAXE]; /* per heap object: element at level-order position (last walk) */
 static int lastkind[MAXH];              /* previous mutating op per heap object (coverage) */
+static int swdiff[MAXH];                /* per heap object: DIFF_OF of the last swap it took part in, -1 = never swapped */
+static int swuses[MAXH];                /* per heap object: push/pop/get calls since that swap */
+static uint64_t cmp_ncalls;             /* comparator calls so far (this case) */
 static int freehead[MAXE];              /* per priority: free elements */
 static int hb[HTAB], hsize;             /* address -> pool element */
 static uint32_t wstamp;
@@ -136,20 +165,32 @@ static void give_back(struct elem *e)
     e->nextfree = freehead[e->key]; freehead[e->key] = e->id;
 }
 
-static int cmp_common(const void *a, const void *b, void *p, int dir)
+static int cmp_common(const void *a, const void *b, void *p, int fn)
 {
     const struct elem *x = a, *y = b;
-    int sgn;
+    int sgn, dir;
+    static const char *const fnname[3] = { "forward", "reversed", "priv-selected" };
     VRT_CHECK(cur_model >= 0, "heap.cmp.outside-call", "comparison called while no heap operation is in progress");
-    VRT_CHECK(p == (void *)&privs[cur_model], "heap.cmp.priv",
-              "comparison called with priv %p, the heap operated on was configured with %p", p, (void *)&privs[cur_model]);
-    VRT_CHECK(dir == conf[cur_model].dir, "heap.cmp.wrong-function",
-              "the %s comparator was called for a heap configured with the %s one", dir > 0 ? "forward" : "reversed",
-              dir > 0 ? "reversed" : "forward");
+    /* the priv of the heap the call was made on (whatever object it has travelled to through swaps) */
+    VRT_CHECK(p == PRIV_OF(cur_model), "heap.cmp.priv",
+              "comparison called with priv %p, the heap operated on was configured with %p", p, PRIV_OF(cur_model));
+    VRT_CHECK(fn == conf[cur_model].fn, "heap.cmp.wrong-function",
+              "the %s comparator was called for a heap configured with the %s one", fnname[fn], fnname[conf[cur_model].fn]);
     VRT_CHECK(x->magic == MAGIC && y->magic == MAGIC, "heap.cmp.non-element", "comparison called with a non-element");
     VRT_CHECK((x->where == cur_model || x == cur_push) && (y->where == cur_model || y == cur_push),
               "heap.cmp.non-member", "comparison called with an element that is neither in the heap nor being pushed");
     VRT_COUNT("cmp.calls");
+    cmp_ncalls++;
+    if (fn == F_SEL) {
+        /* direction selected through priv, as a client's comparator would do it */
+        const struct privobj *po = p;
+        VRT_CHECK(po->g0 == PADV && po->g1 == PADV, "heap.cmp.priv-object-written", "the object priv points to was modified");
+        dir = po->dir;
+        VRT_COUNT("cmp.calls.direction-from-priv");
+    } else dir = fn == F_FWD ? +1 : -1;
+    if (p == NULL) VRT_COUNT("cmp.calls.null-priv");
+    VRT_CHECK(dir == conf[cur_model].dir, "harness.config.direction", "configuration table: function %d / priv %d give direction %d, table says %d",
+              fn, conf[cur_model].pv, dir, conf[cur_model].dir);
     sgn = dir * ((x->key > y->key) - (x->key < y->key));
     /* only the sign of the result is specified: scale 7 stands for "magnitude unrelated to the
      * distance between the priorities" (as with strcmp-like or multi-key comparators) */
@@ -159,25 +200,30 @@ static int cmp_common(const void *a, const void *b, void *p, int dir)
     }
     return sgn * C->cmpscale;
 }
-static int cmp_fwd(const void *a, const void *b, void *p) { return cmp_common(a, b, p, +1); }
-static int cmp_rev(const void *a, const void *b, void *p) { return cmp_common(a, b, p, -1); }
+static int cmp_fwd(const void *a, const void *b, void *p) { return cmp_common(a, b, p, F_FWD); }
+static int cmp_rev(const void *a, const void *b, void *p) { return cmp_common(a, b, p, F_REV); }
+static int cmp_sel(const void *a, const void *b, void *p) { return cmp_common(a, b, p, F_SEL); }
+static cstl_compare_func_t *const cmpfns[3] = { cmp_fwd, cmp_rev, cmp_sel };
 
 static void st_create(int scope)
 {
     int i;
     C = &scopetab[scope];
+    conf = confsets[C->cset];
+    cmp_ncalls = 0;
     for (hsize = 16; hsize < 2 * C->np; hsize <<= 1) ;
     for (i = 0; i < hsize; i++) hb[i] = -1;
     for (i = 0; i < C->nk; i++) freehead[i] = -1;
     /* highest id first so that the lowest id of a priority is taken first */
     for (i = C->np - 1; i >= 0; i--) new_elem(i, i % C->nk);
     for (i = 0; i < C->nh; i++) {
-        cstl_compare_func_t * const cf = conf[i].dir > 0 ? cmp_fwd : cmp_rev;
+        cstl_compare_func_t * const cf = cmpfns[conf[i].fn];
+        void * const pv = PRIV_OF(i);
         /* both documented ways of making a heap: the init function and (every other time) the static initialiser */
-        if (++init_toggle & 1) cstl_heap_init(&H[i], cf, &privs[i], OFF_OF(i));
-        else if (conf[i].nodesel) H[i] = (struct cstl_heap)CSTL_HEAP_INITIALIZER(struct elem, node2, cf, &privs[i]);
-        else H[i] = (struct cstl_heap)CSTL_HEAP_INITIALIZER(struct elem, node, cf, &privs[i]);
-        mi[i] = i; Mn[i] = 0; lastkind[i] = 0; best[i] = -1;
+        if (++init_toggle & 1) cstl_heap_init(&H[i], cf, pv, OFF_OF(i));
+        else if (conf[i].nodesel) H[i] = (struct cstl_heap)CSTL_HEAP_INITIALIZER(struct elem, node2, cf, pv);
+        else H[i] = (struct cstl_heap)CSTL_HEAP_INITIALIZER(struct elem, node, cf, pv);
+        mi[i] = i; Mn[i] = 0; lastkind[i] = 0; best[i] = -1; swdiff[i] = -1; swuses[i] = 0;
         memset(cnt[i], 0, sizeof(cnt[i][0]) * C->nk);
     }
     cur_model = -1; cur_push = NULL;
@@ -370,8 +416,39 @@ static void clear_cb(void *e, void *p)
     VRT_COUNT("clear.handed-over");
 }
 
+/* ---- swap coverage: which attributes differed, in which state, and how the two heap objects were used afterwards ---- */
+static const char *const diffname[8] = { "same-config", "cmp-only", "priv-only", "cmp+priv", "offset-only", "cmp+offset", "priv+offset", "all-differ" };
+enum { SW_BOTH_EMPTY, SW_ONE_EMPTY, SW_BOTH, SW_BOTH_EQUAL, SW_NSTATES };
+enum { U_PUSH, U_POP, U_GET, U_CMP, U_THIRD, U_N };
+static int swap_ids[8][SW_NSTATES], use_ids[8][U_N], swap_ids_ready;
+static void swap_ids_init(void)
+{
+    static const char *const stn[SW_NSTATES] = { "both-empty", "one-empty", "both-nonempty", "both-nonempty-equal-sizes" };
+    static const char *const usn[U_N] = { "then-push", "then-pop", "then-get", "then-compared", "then-third-use" };
+    int d, k;
+    for (d = 1; d < 8; d++) {      /* 0 cannot happen: the configurations of one set are pairwise different */
+        char nm[80];
+        for (k = 0; k < SW_NSTATES; k++) { snprintf(nm, sizeof(nm), "swap.%s.%s", diffname[d], stn[k]); swap_ids[d][k] = vrt_counter_id(nm); }
+        for (k = 0; k < U_N; k++) { snprintf(nm, sizeof(nm), "swap.%s.%s", diffname[d], usn[k]); use_ids[d][k] = vrt_counter_id(nm); }
+    }
+    swap_ids_ready = 1;
+}
+/* a call on heap object h that was fully audited: account it to the last swap h took part in */
+static void used_after_swap(int h, int what, uint64_t cmp_before, int audited)
+{
+    const int d = swdiff[h];
+    if (d <= 0) return;
+    swuses[h]++;
+    if (!audited) return;
+    if (!swap_ids_ready) swap_ids_init();
+    vrt_ctr[use_ids[d][what]]++;
+    if (cmp_ncalls != cmp_before) vrt_ctr[use_ids[d][U_CMP]]++;
+    if (swuses[h] == 3) vrt_ctr[use_ids[d][U_THIRD]]++;
+}
+
 static int st_apply(uint32_t op, int audit)
 {
+    const uint64_t cmp0 = cmp_ncalls;
     const int kind = OP_KIND(op), h1 = OP_H1(op), h2 = OP_H2(op), key = OP_KEY(op);
     struct elem *e;
     int m, sizeb;
@@ -422,6 +499,7 @@ static int st_apply(uint32_t op, int audit)
             if (e->pos > 0 && posmap[h1][(e->pos - 1) / 2]->key == e->key) VRT_COUNT("push.stops-below-equal-parent");
             vrt_sig(2, vrt_mix(vrt_mix(0x9057, sizeb), e->pos));
         }
+        used_after_swap(h1, U_PUSH, cmp0, audit);
         return 1;
     }
     case K_POP: {
@@ -492,6 +570,7 @@ static int st_apply(uint32_t op, int audit)
                 vrt_sig(1, vrt_mix(vrt_mix(0x909, sizeb), p));
             }
         }
+        used_after_swap(h1, U_POP, cmp0, audit);
         return 1;
     }
     case K_GET: {
@@ -510,6 +589,7 @@ static int st_apply(uint32_t op, int audit)
             VRT_COUNT("op.get");
         }
         AFTER(audit, h1, "get");
+        if (sizeb > 0) used_after_swap(h1, U_GET, cmp0, audit);
         return 1;       /* not mutating: lastkind unchanged */
     }
     case K_CLEAR:
@@ -529,8 +609,9 @@ static int st_apply(uint32_t op, int audit)
         AFTER(audit, h1, "clear");
         return 1;
     case K_SWAP: {
-        int t;
+        int t, d, sizeb2;
         if (h2 >= C->nh || h1 == h2) return 0;
+        d = DIFF_OF(m, mi[h2]); sizeb2 = Mn[mi[h2]];
         vrt_state(sizeb == 0 && Mn[mi[h2]] == 0 ? "both-empty" : sizeb == 0 || Mn[mi[h2]] == 0 ? "one-empty" : "both");
         VRT_OP4("heap.swap", "h%ld (size %ld) <-> h%ld (size %ld)", h1, sizeb, h2, Mn[mi[h2]]);
         cstl_heap_swap(&H[h1], &H[h2]);
@@ -541,6 +622,11 @@ static int st_apply(uint32_t op, int audit)
         else if (sizeb == 0 && Mn[mi[h1]] == 0) VRT_COUNT("op.swap.both-empty");
         else VRT_COUNT("op.swap.one-empty");
         t = lastkind[h1]; lastkind[h1] = lastkind[h2]; lastkind[h2] = t;
+        VRT_CHECK(d != 0, "harness.config.identical", "two heaps of configuration set %d are configured identically", C->cset);
+        if (!swap_ids_ready) swap_ids_init();
+        vrt_ctr[swap_ids[d][sizeb == 0 && sizeb2 == 0 ? SW_BOTH_EMPTY : sizeb == 0 || sizeb2 == 0 ? SW_ONE_EMPTY : SW_BOTH]]++;
+        if (sizeb != 0 && sizeb == sizeb2) vrt_ctr[swap_ids[d][SW_BOTH_EQUAL]]++;
+        swdiff[h1] = swdiff[h2] = d; swuses[h1] = swuses[h2] = 0;
         if (audit) audit_all("swap");
         return 1;
     }
@@ -552,7 +638,7 @@ static int st_apply(uint32_t op, int audit)
 /* signature: per heap object the level-order priority list */
 static uint64_t st_sig(void)
 {
-    uint64_t s = 0xc07 + C->nh;
+    uint64_t s = 0xc07 + C->nh + 64 * C->cset;
     int h, i;
     audit_all("replay");
     for (h = 0; h < C->nh; h++) {
@@ -606,6 +692,13 @@ static const struct cscope quick_scopes[] = {
     { { 1, 3, 36, 12, 1 }, 1000000, 100 },      /* one heap, <= 12 elements x 3 priorities (ties) */
     { { 1, 2, 40, 20, 1 }, 1000000, 100 },      /* <= 20 x 2 priorities: sizes across the 8 and 16 level boundaries */
     { { 1, 1, 70, 70, 1 }, 1000000, 100 },      /* all ties: shapes only, sizes across 32 and 64 */
+    /* heaps that differ in ONE attribute (configuration sets 1-4): swap in every state, every op in every state after it */
+    { { 2, 3, 24, 4, 1, 0, 1 }, 1000000, 100 }, /* max-heap and min-heap sharing function and offset (priv only), <= 4 each x 3 priorities */
+    { { 3, 2, 12, 2, 1, 0, 1 }, 1000000, 100 }, /* three heaps, priv only (two of them with the same order) */
+    { { 2, 2, 16, 4, 7, 0, 2 }, 1000000, 100 }, /* function only */
+    { { 3, 2, 12, 2, 1, 0, 3 }, 1000000, 100 }, /* offset only / function only */
+    { { 2, 2, 16, 4, 1, 0, 3 }, 1000000, 100 }, /* offset only, same order: <= 4 each */
+    { { 3, 2, 12, 2, 1, 0, 4 }, 1000000, 100 }, /* NULL priv against non-NULL priv */
 };
 static const struct cscope thorough_scopes[] = {
     { { 2, 3, 36, 6, 1 }, 6000000, 120 },
@@ -619,11 +712,19 @@ static const struct cscope thorough_scopes[] = {
     { { 3, 2, 24, 4, 1 }, 6000000, 120 },
     { { 1, 2, 52, 26, 1 }, 6000000, 120 },
     { { 1, 1, 140, 140, 1 }, 6000000, 150 },
+    { { 2, 3, 30, 5, 1, 0, 1 }, 6000000, 120 },
+    { { 3, 2, 18, 3, 7, 0, 1 }, 6000000, 120 },
+    { { 2, 3, 30, 5, 1, 0, 2 }, 6000000, 120 },
+    { { 3, 2, 18, 3, 1, 0, 2 }, 6000000, 120 },
+    { { 2, 3, 30, 5, 1000003, 0, 3 }, 6000000, 120 },
+    { { 3, 2, 18, 3, 1, 0, 3 }, 6000000, 120 },
+    { { 3, 2, 18, 3, 1, 0, 4 }, 6000000, 120 },
 };
 static const struct cscope *scopes;
 static int nscopes;
 #define RANDOM_SLOT 39
 #define BIG_SLOT 38
+#define SWAPUSE_SLOT 37
 
 static int build_alphabet(const struct cfg *c, uint32_t *al)
 {
@@ -646,15 +747,17 @@ static void run_closure(int ci)
     struct vex_result r;
     scopetab[ci] = s->c;
     n = build_alphabet(&s->c, al);
-    vrt_case_note("closure heaps=%d priorities=%d pool=%d maxsize=%d cmpscale=%d alphabet=%d%s", s->c.nh, s->c.nk, s->c.np,
-                  s->c.maxlen, s->c.cmpscale, n, is_clear_mode ? " +clear probe in every state" : "");
+    vrt_case_note("closure heaps=%d priorities=%d pool=%d maxsize=%d cmpscale=%d configset=%d alphabet=%d%s", s->c.nh, s->c.nk, s->c.np,
+                  s->c.maxlen, s->c.cmpscale, s->c.cset, n, is_clear_mode ? " +clear probe in every state" : "");
     model.nprobes = is_clear_mode ? 1 : 0;
     model.probe = st_probe;
     vex_closure(&model, ci, al, n, s->max_states, s->max_depth, &r);
     {
+        static const char *const setn[NSETS] = { "", "-differ-priv", "-differ-cmp", "-differ-offset", "-differ-null-priv" };
         char nm[96];
-        snprintf(nm, sizeof(nm), "closure.states.heaps%d-prio%d-max%d%s", s->c.nh, s->c.nk, s->c.maxlen,
-                 s->c.np == s->c.nk ? "-distinct" : "");
+        snprintf(nm, sizeof(nm), "closure.states.heaps%d-prio%d-max%d%s%s", s->c.nh, s->c.nk, s->c.maxlen,
+                 s->c.np == s->c.nk ? "-distinct" : "", setn[s->c.cset]);
+        if (s->c.cset) VRT_COUNT("closure.scopes.single-attribute-configs");
         vrt_count_dyn(nm, r.states);
     }
     VRT_COUNT_N("closure.states", r.states);
@@ -668,7 +771,7 @@ static void run_closure(int ci)
 /* ---- random histories ---- */
 static uint64_t state_hash(void)
 {
-    uint64_t s = 0xc07 + C->nh;
+    uint64_t s = 0xc07 + C->nh + 64 * C->cset;
     int h, i;
     for (h = 0; h < C->nh; h++) {
         const int n = Mn[mi[h]];
@@ -694,9 +797,15 @@ static void run_random(uint64_t idx)
     c->maxlen = c->np;
     c->cmpscale = vrt_chance(&g, 1, 3) ? 1000003 : vrt_chance(&g, 1, 2) ? 7 : 1;
     c->light = 0;
+    {
+        /* configuration set from a generator of its own: the other parameters of history idx stay what they were */
+        vrt_rng g2;
+        vrt_rng_seed(&g2, vrt_seed, 0xC5E7000 + idx);
+        c->cset = (int)vrt_below(&g2, NSETS);
+    }
     nops = big ? (vrt_thorough ? 12000 : 6000) : (vrt_thorough ? 4000 : 1500);
     if (big) target = c->np;            /* large pools: fill completely first */
-    vrt_case_note("random heaps=%d priorities=%d pool=%d cmpscale=%d ops=%d", c->nh, c->nk, c->np, c->cmpscale, nops);
+    vrt_case_note("random heaps=%d priorities=%d pool=%d cmpscale=%d configset=%d ops=%d", c->nh, c->nk, c->np, c->cmpscale, c->cset, nops);
     st_create(RANDOM_SLOT);
     for (i = 0; i < nops; i++) {
         const int h = (int)vrt_below(&g, c->nh);
@@ -801,6 +910,7 @@ static void run_big(uint64_t idx)
     c->maxlen = c->np;
     c->cmpscale = scales[(idx / 2 + idx) % 3];
     c->light = 1;
+    c->cset = 0;
     top = (1 << BIG_TOPK) + 1500 + (int)vrt_below(&g, 2500);
     vrt_case_note("large heap: pool=%d priorities=%d cmpscale=%d grow to %d with pops mixed in, drain with pushes mixed in",
                   c->np, c->nk, c->cmpscale, top);
@@ -847,6 +957,98 @@ static void run_big(uint64_t idx)
     VRT_COUNT("big.histories");
 }
 
+/* ---- swap, then use ----
+ * Every pair of heap objects of every configuration set (so: pairs that differ in exactly one of function / priv /
+ * offset, in two of them, in all, and - after the configurations have travelled - in nothing) is swapped in every
+ * state class (both empty, either one empty, both non-empty with equal and with different sizes), in both argument
+ * orders, and then both objects are USED: get, pushes of random and of both extreme priorities, pops, all under the
+ * full audit and the comparator oracle.  Three more swaps follow (through the third heap object and back), each
+ * followed by the same use, so that a configuration is checked on an object it reached after several swaps. */
+static int push_some(int h, int k)
+{
+    int j;
+    for (j = 0; j < C->nk; j++) if (st_apply(OP(K_PUSH, h, 0, (k + j) % C->nk), 1)) return 1;
+    return 0;
+}
+static void use_heap(vrt_rng *g, int h)
+{
+    st_apply(OP(K_GET, h, 0, 0), 1);
+    push_some(h, (int)vrt_below(g, C->nk));
+    push_some(h, 0);
+    push_some(h, C->nk - 1);
+    st_apply(OP(K_GET, h, 0, 0), 1);
+    st_apply(OP(K_POP, h, 0, 0), 1);
+    push_some(h, (int)vrt_below(g, C->nk));
+    st_apply(OP(K_POP, h, 0, 0), 1);
+    if (vrt_chance(g, 1, 2)) st_apply(OP(K_POP, h, 0, 0), 1);
+    st_apply(OP(K_GET, h, 0, 0), 1);
+    VRT_COUNT("swapuse.uses");
+}
+static void run_swapuse(uint64_t idx)
+{
+    static const int pa[3] = { 0, 0, 1 }, pb[3] = { 1, 2, 2 };
+    static const int nks[5] = { 2, 3, 5, 16, 0 };
+    static const int scales[3] = { 1, 7, 1000003 };
+    struct cfg *c = &scopetab[SWAPUSE_SLOT];
+    vrt_rng g;
+    const int pair = (int)((idx / NSETS) % 3), flip = (int)((idx / (NSETS * 3)) & 1), sc = (int)((idx / (NSETS * 6)) % 8);
+    int a = pa[pair], b = pb[pair], third, n, na, nb, nc, i, h, total;
+    vrt_rng_seed(&g, vrt_seed, 0x5A9000 + idx);
+    if (flip) { const int t = a; a = b; b = t; }
+    third = 3 - a - b;
+    c->nh = 3; c->np = 96; c->maxlen = c->np; c->light = 0;
+    c->cset = (int)(idx % NSETS);
+    c->nk = nks[vrt_below(&g, 5)];
+    if (c->nk == 0) c->nk = c->np;
+    c->cmpscale = scales[vrt_below(&g, 3)];
+    n = 2 + (int)vrt_below(&g, 10);
+    switch (sc) {
+    case 0: na = 0; nb = 0; break;
+    case 1: na = 0; nb = n; break;
+    case 2: na = n; nb = 0; break;
+    case 3: na = n; nb = n; break;
+    case 4: na = n; nb = 1 + (int)vrt_below(&g, 20); if (nb == na) nb++; break;
+    case 5: na = 1; nb = 1; break;
+    case 6: na = vrt_chance(&g, 1, 2); nb = 1 - na; break;
+    default: na = n + 1; nb = n; break;
+    }
+    nc = (int)vrt_below(&g, 4);
+    vrt_case_note("swap-then-use configset=%d swap(h%d,h%d) sizes %d/%d third %d priorities=%d cmpscale=%d", c->cset, a, b, na, nb, nc,
+                  c->nk, c->cmpscale);
+    st_create(SWAPUSE_SLOT);
+    for (i = 0; i < na; i++) push_some(a, (int)vrt_below(&g, c->nk));
+    for (i = 0; i < nb; i++) push_some(b, (int)vrt_below(&g, c->nk));
+    for (i = 0; i < nc; i++) push_some(third, (int)vrt_below(&g, c->nk));
+    st_apply(OP(K_SWAP, a, b, 0), 1);
+    for (total = 0, h = 0; h < c->nh; h++) total += Mn[h];
+    if (total >= 2) vrt_sig(0, vrt_mix(vrt_mix(state_hash(), 0x5a9), (uint64_t)a * 4 + (uint64_t)b));
+    use_heap(&g, a); use_heap(&g, b);
+    st_apply(OP(K_SWAP, b, third, 0), 1);
+    use_heap(&g, third); use_heap(&g, b);
+    st_apply(OP(K_SWAP, b, a, 0), 1);
+    use_heap(&g, b); use_heap(&g, a);
+    st_apply(OP(K_SWAP, third, a, 0), 1);
+    use_heap(&g, a); use_heap(&g, third); use_heap(&g, b);
+    audit_all("history");
+    for (h = 0; h < c->nh; h++) {
+        while (Mn[mi[h]] > 0) st_apply(OP(K_POP, h, 0, 0), 1);
+        st_apply(OP(K_POP, h, 0, 0), 1);
+        st_apply(OP(K_GET, h, 0, 0), 1);
+    }
+    /* empty again: once more round the ring, then a last use */
+    st_apply(OP(K_SWAP, a, b, 0), 1);
+    st_apply(OP(K_SWAP, third, b, 0), 1);
+    for (h = 0; h < c->nh; h++) use_heap(&g, h);
+    for (h = 0; h < c->nh; h++) st_apply(OP(K_CLEAR, h, 0, 0), 1);
+    st_destroy();
+    VRT_COUNT("swapuse.histories");
+}
+static uint64_t nswapuse(void)
+{
+    if (is_clear_mode) return 0;
+    return (uint64_t)NSETS * 3 * 2 * 8 * (vrt_thorough ? 8 : 1);
+}
+
 static uint64_t nbig(void)
 {
     if (is_clear_mode) return 0;
@@ -862,13 +1064,16 @@ static uint64_t ncases(void)
     is_clear_mode = strcmp(vrt_mode, "clear") == 0;
     if (vrt_thorough) { scopes = thorough_scopes; nscopes = sizeof(thorough_scopes) / sizeof(scopes[0]); }
     else { scopes = quick_scopes; nscopes = sizeof(quick_scopes) / sizeof(scopes[0]); }
-    return nscopes + nbig() + nrandom();
+    /* the single-attribute configuration scopes (at the end of the tables) belong to mode "" only */
+    if (is_clear_mode) while (nscopes > 0 && scopes[nscopes - 1].c.cset != 0) nscopes--;
+    return nscopes + nbig() + nswapuse() + nrandom();
 }
 static void run_case(uint64_t idx)
 {
     if (idx < (uint64_t)nscopes) run_closure((int)idx);
     else if (idx < nscopes + nbig()) run_big(idx - nscopes);
-    else run_random(idx - nscopes - nbig());
+    else if (idx < nscopes + nbig() + nswapuse()) run_swapuse(idx - nscopes - nbig());
+    else run_random(idx - nscopes - nbig() - nswapuse());
 }
 static void winit(void)
 {
@@ -889,7 +1094,16 @@ static const char *const required[] = {
     "pop.root-children-tied", "pop.sift-down.to-leaf",
     "push.slot-left", "push.slot-right", "push.opens-new-level", "push.sift-up.0", "push.sift-up.1", "push.sift-up.2+",
     "push.right-after.pop", "pop.right-after.push",
-    "audit.heap", "closure.states", "random.histories", "random.histories.large", NULL
+    "audit.heap", "closure.states", "random.histories", "random.histories.large",
+    /* heaps that differ in exactly one attribute: swapped in every state, then used under the full audit */
+    "swapuse.histories", "closure.scopes.single-attribute-configs", "cmp.calls.direction-from-priv", "cmp.calls.null-priv",
+    "swap.priv-only.both-empty", "swap.priv-only.one-empty", "swap.priv-only.both-nonempty", "swap.priv-only.both-nonempty-equal-sizes",
+    "swap.priv-only.then-push", "swap.priv-only.then-pop", "swap.priv-only.then-get", "swap.priv-only.then-compared", "swap.priv-only.then-third-use",
+    "swap.cmp-only.both-empty", "swap.cmp-only.one-empty", "swap.cmp-only.both-nonempty", "swap.cmp-only.both-nonempty-equal-sizes",
+    "swap.cmp-only.then-push", "swap.cmp-only.then-pop", "swap.cmp-only.then-get", "swap.cmp-only.then-compared", "swap.cmp-only.then-third-use",
+    "swap.offset-only.both-empty", "swap.offset-only.one-empty", "swap.offset-only.both-nonempty", "swap.offset-only.both-nonempty-equal-sizes",
+    "swap.offset-only.then-push", "swap.offset-only.then-pop", "swap.offset-only.then-get", "swap.offset-only.then-compared", "swap.offset-only.then-third-use",
+    "swap.all-differ.both-empty", "swap.all-differ.then-compared", NULL
 };
 static const char *const required_clear[] = {
     "op.push", "op.pop", "op.pop.empty", "op.get.empty", "op.clear.nonempty", "clear.handed-over",
